@@ -94,7 +94,7 @@ func (m *Model) RunPrefixKW(s *Sink, rule string) {
 					}
 				}
 			case *ssa.Call:
-				if sc := x.Call.StaticCallee(); sc != nil && sc.Name() == "peekChar" {
+				if sc := x.Call.StaticCallee(); sc != nil && canonFnName(sc) == "peekChar" {
 					return constant.MakeInt64(int64(c2)), true
 				}
 			}
